@@ -77,7 +77,7 @@ Lemma py_step_ok st o : inv (fst st) -> inv (snd st) ->
 Proof.
   destruct st as [cur other]. simpl fst; simpl snd. intros [Hc Nc] [Ho No].
   unfold py_step, py_step_fuel. pose proof (seek_fuel_gt ts) as HF. fold T in HF.
-  destruct o as [| | | | |x|i| | |x|i].
+  destruct o as [| | | | |x|i| | |x|i]; rewrite ?tree_copy_id.
   - destruct (tree_clear_ok ts V cur Hc) as [C _].
     destruct (tree_next_ok ts V _ C) as (t' & r & S & H' & _ & N'). unfold tree_first. rewrite S. cbn [bind].
     eexists; eexists; split; [reflexivity|]. simpl. pose proof (ne_ok_clear ts V cur). unfold inv. auto.
